@@ -887,3 +887,31 @@ func runRedelegationOnlyTarget(seed int64, cw *CaseWriter, rep *lib.Report, r *l
 	h.Exec(Op{Kind: "block", Dt: 5 * sec})
 	finish(h, rep, "scenario-redelegation-only-target")
 }
+
+// runValidatorSetChange: a validator that holds only its 100 FX self-delegation is slashed by 5%: its power
+// (tokens / 10^20) drops to 0 and the end blocker of that block moves it out of the active set (tokens to the
+// not-bonded pool, an unbonding id for the VALIDATOR in the 0x38 index). A source then delegates to the unbonding
+// validator (coins go to the not-bonded pool), the validator re-enters the set at the next block end, the source
+// undelegates part, migrates, and the target's entry matures; another validator leaves and stays out until its own
+// unbonding period ends (its id is deleted from the index).
+func runValidatorSetChange(seed int64, cw *CaseWriter, rep *lib.Report, r *lib.Rand) {
+	h := NewHist(seed*1000+983, cw, rep)
+	h.setupBasic()
+	v0 := val0 + r.Intn(3)
+	v1 := val0 + (v0-val0+1)%3
+	h.Exec(Op{Kind: "block", Dt: 5 * sec})
+	h.Exec(Op{Kind: "slash", V: v0, Dt: 1})
+	h.Exec(Op{Kind: "block", Dt: 5 * sec}) // v0 leaves the active set
+	h.Exec(Op{Kind: "delegate", A: 0, V: v0, Amt: fx(400)})
+	h.Exec(Op{Kind: "block", Dt: 5 * sec}) // ... and is back
+	h.Exec(Op{Kind: "slash", V: v1, Dt: 1})
+	h.Exec(Op{Kind: "block", Dt: 5 * sec}) // v1 leaves and stays out
+	h.Exec(Op{Kind: "undelegate", A: 0, V: v0, Amt: fx(150)})
+	h.Exec(Op{Kind: "block", Dt: 5 * sec})
+	h.Exec(mig(0, tgt0, "tx"))
+	h.Exec(Op{Kind: "block", Dt: 5 * sec})
+	h.Exec(Op{Kind: "withdraw", A: tgt0, V: v0})
+	h.Exec(Op{Kind: "block", Dt: 21 * day}) // the target's entry matures; v1's own unbonding period ends
+	h.Exec(Op{Kind: "block", Dt: 5 * sec})
+	finish(h, rep, "scenario-validator-set-change")
+}
